@@ -31,7 +31,7 @@ type c12gsSurvivor struct {
 }
 
 type c12gsScenario struct {
-	Burst     int             `json:"burst"`      // short silences created in one process life
+	Burst     int             `json:"burst"` // short silences created in one process life
 	BurstLenS int             `json:"burst_len_s"`
 	RetS      int             `json:"ret_s"`
 	Survivors []c12gsSurvivor `json:"survivors"`
